@@ -34,6 +34,7 @@
 typedef struct {
 	sqfs_meta_reader_t *mr[2];
 	sqfs_dir_reader_t *dr;
+	sqfs_dir_reader_t *drd;		/* created with SQFS_DIR_READER_DOT_ENTRIES: remembers inode number -> reference of every directory it fetched */
 	sqfs_data_reader_t *data;
 	sqfs_xattr_reader_t *xr;
 	sqfs_id_table_t *idtbl;
@@ -53,8 +54,9 @@ static int mk(readers_t *r)
 	r->mr[0] = sqfs_meta_reader_create(file, r->cmp, super.inode_table_start, super.directory_table_start);
 	r->mr[1] = sqfs_meta_reader_create(file, r->cmp, super.directory_table_start, super.bytes_used);
 	r->dr = sqfs_dir_reader_create(&super, r->cmp, file, 0);
+	r->drd = sqfs_dir_reader_create(&super, r->cmp, file, SQFS_DIR_READER_DOT_ENTRIES);
 	r->data = sqfs_data_reader_create(file, super.block_size, r->cmp, 0);
-	if (!r->mr[0] || !r->mr[1] || !r->dr || !r->data) return -1;
+	if (!r->mr[0] || !r->mr[1] || !r->dr || !r->drd || !r->data) return -1;
 	if (sqfs_data_reader_load_fragment_table(r->data, &super)) { /* damaged image: keep going without */ }
 	if (!(super.flags & SQFS_FLAG_NO_XATTRS)) {
 		r->xr = sqfs_xattr_reader_create(0);
@@ -71,6 +73,7 @@ static void rm(readers_t *r)
 	if (r->mr[0]) sqfs_drop(r->mr[0]);
 	if (r->mr[1]) sqfs_drop(r->mr[1]);
 	if (r->dr) sqfs_drop(r->dr);
+	if (r->drd) sqfs_drop(r->drd);
 	if (r->data) sqfs_drop(r->data);
 	if (r->xr) sqfs_drop(r->xr);
 	if (r->idtbl) sqfs_drop(r->idtbl);
@@ -128,6 +131,29 @@ static int do_op(readers_t *r, const char *line, acc_t *a)
 		sqfs_free(ino);
 		return ret;
 	}
+	case 'E': {
+		/* the "." and ".." entries of a directory fetched by reference through the learning reader: what they point at (an answer may be
+		 * refused while the reader has not seen the parent yet; an answer that is GIVEN has to be the one a reader that knows the whole
+		 * tree gives) */
+		sqfs_inode_generic_t *ino = NULL;
+		sqfs_dir_reader_state_t st;
+		int ret = sqfs_dir_reader_get_inode(r->drd, x, &ino);
+		if (ret) return ret;
+		ret = sqfs_dir_reader_open_dir(r->drd, ino, &st, 0);
+		for (int k = 0; ret == 0 && k < 2; ++k) {
+			sqfs_dir_node_t *e = NULL;
+			ret = sqfs_dir_reader_read(r->drd, &st, &e);
+			if (ret == 0) { acc(a, e->name, e->size + 1); acc(a, &st.ent_ref, sizeof st.ent_ref); sqfs_free(e); }
+		}
+		sqfs_free(ino);
+		return ret > 0 ? 0 : ret;
+	}
+	case 'Y': {
+		sqfs_u64 ref = 0;
+		int ret = sqfs_dir_reader_resolve_inum(r->drd, (sqfs_u32)x, &ref);
+		if (ret == 0) acc(a, &ref, sizeof ref);
+		return ret;
+	}
 	case 'P': {
 		char path[512];
 		sqfs_inode_generic_t *root = NULL;
@@ -169,6 +195,13 @@ static int do_op(readers_t *r, const char *line, acc_t *a)
 				unsigned char buf[4096];
 				for (;;) {
 					sqfs_s32 n = sqfs_istream_read(in, buf, sizeof buf);
+					if (n < 0) {
+						/* a failed read asked again: the stream must not hand out bytes now (-7777 = data after an error) */
+						const sqfs_u8 *p2 = NULL; size_t sz2 = 0;
+						int r2 = in->get_buffered_data(in, &p2, &sz2, 1);
+						ret = (r2 == 0 && sz2 > 0) ? -7777 : n;
+						break;
+					}
 					if (n <= 0) { ret = n; break; }
 					acc(a, buf, n);
 				}
@@ -203,6 +236,23 @@ static int do_op(readers_t *r, const char *line, acc_t *a)
 	}
 }
 
+static void learn_all(sqfs_dir_reader_t *dr, sqfs_u64 ref, int depth)
+{
+	sqfs_inode_generic_t *ino = NULL;
+	sqfs_dir_reader_state_t st;
+	if (depth > 64 || sqfs_dir_reader_get_inode(dr, ref, &ino)) return;
+	if ((ino->base.type == SQFS_INODE_DIR || ino->base.type == SQFS_INODE_EXT_DIR) &&
+	    sqfs_dir_reader_open_dir(dr, ino, &st, SQFS_DIR_OPEN_NO_DOT_ENTRIES) == 0) {
+		for (int k = 0; k < 100000; ++k) {
+			sqfs_dir_node_t *e = NULL;
+			if (sqfs_dir_reader_read(dr, &st, &e) != 0) break;
+			if (e->type == SQFS_INODE_DIR) learn_all(dr, st.ent_ref, depth + 1);
+			sqfs_free(e);
+		}
+	}
+	sqfs_free(ino);
+}
+
 int main(int argc, char **argv)
 {
 	if (argc < 3) return 2;
@@ -223,6 +273,18 @@ int main(int argc, char **argv)
 		if (mk(&fresh)) { printf("{\"fatal\":\"create2\"}\n"); return 0; }
 		int r2 = do_op(&fresh, line, &a2);
 		rm(&fresh);
+		if (line[0] == 'E' || line[0] == 'Y') {
+			readers_t all;
+			acc_t a3;
+			if (mk(&all)) { printf("{\"fatal\":\"create3\"}\n"); return 0; }
+			learn_all(all.drd, super.root_inode_ref, 0);
+			int r3 = do_op(&all, line, &a3);
+			rm(&all);
+			printf("{\"i\":%d,\"op\":\"%s\",\"learning\":true,\"h\":[%d,%llu,%zu],\"f\":[%d,%llu,%zu],\"o\":[%d,%llu,%zu]}\n", ++i, line,
+			       r1, (unsigned long long)(r1 ? 0 : a1.h), r1 ? 0 : a1.n, r2, (unsigned long long)(r2 ? 0 : a2.h), r2 ? 0 : a2.n,
+			       r3, (unsigned long long)(r3 ? 0 : a3.h), r3 ? 0 : a3.n);
+			continue;
+		}
 		printf("{\"i\":%d,\"op\":\"%s\",\"h\":[%d,%llu,%zu,%llu,%llu],\"f\":[%d,%llu,%zu,%llu,%llu]}\n", ++i, line,
 		       r1, (unsigned long long)(r1 ? 0 : a1.h), r1 ? 0 : a1.n, r1 ? 0 : a1.pb, r1 ? 0 : a1.po,
 		       r2, (unsigned long long)(r2 ? 0 : a2.h), r2 ? 0 : a2.n, r2 ? 0 : a2.pb, r2 ? 0 : a2.po);
